@@ -772,3 +772,16 @@ def rule_stateapi(ctx, R):
 
 
 RULES.append(("C01.STATEAPI", "the accessors of both state representations (selected stack, jump source, label table, command log) read and write exactly their field", rule_stateapi))
+
+
+def _shared(mod, fn):
+    def run(ctx, R):
+        import importlib
+        return getattr(importlib.import_module("rules." + mod), fn)(ctx, R)
+    return run
+
+
+RULES.append(("C01.MEMREADER", "the in-memory reader programs are fed through in library use (shared with C14.MEMREADER)", _shared("p_c14", "rule_memreader")))
+RULES.append(("C01.DIAG", "an abnormal stop is reported: message unconditionally, note when present, on standard error (shared with C13.DIAG)", _shared("p_c13", "rule_diag")))
+RULES.append(("C01.REEMIT", "`run` re-emits output computed before the program starts to the stream it was written to (shared with C02.REEMIT)", _shared("p_c02", "rule_reemit")))
+RULES.append(("C01.UNICODE", "the output conversion and its diagnosis (shared with C13.UNICODE)", _shared("p_c13", "rule_unicode")))
